@@ -45,6 +45,12 @@ class FileHandler(BaseHandler):
             self.entry.populatefromfs(self.getselector(), self.statresult, vfs=self.vfs)
         return self.entry
 
+    def prepare(self):
+        # The protocols send their success status between prepare() and
+        # write().  Find out now whether the document can be opened at all
+        # (permissions, descriptors), while an error reply is still possible.
+        self.vfs.open(self.getselector(), "rb").close()
+
     def write(self, wfile):
         self.vfs.copyto(self.getselector(), wfile)
 
